@@ -64,7 +64,10 @@ static elem_t e_conj(elem_t a) { return e_make(a.r, -a.i); }
 static elem_t e_scale(elem_t a, real_t s) { return e_make(a.r * s, a.i * s); }
 static real_t e_abs1(elem_t a) { return (real_t)(fabs((double)a.r) + fabs((double)a.i)); }
 static void e_assert_zero(elem_t a, double scale, const char *id) { slusym_assert_zero((double)a.r, scale, id); slusym_assert_zero((double)a.i, scale, id); }
-static void e_assert_nonzero(elem_t a, const char *id) { slusym_assert_nonzero((double)e_abs1(a), id); }
+static void e_assert_nonzero(elem_t a, const char *id) { slusym_assert_or2(6, (double)a.r, 0.0, 6, (double)a.i, 0.0, id); }
+/* |re|+|im| <= c  <=>  the four signed sums are <= c (keeps the obligation free of ite terms) */
+static void e_assert_abs1_le(elem_t a, real_t w, real_t c, const char *id) { slusym_assert_cmp(5, (double)((a.r + a.i) * w), (double)c, 1.0, id); slusym_assert_cmp(5, (double)((a.r - a.i) * w), (double)c, 1.0, id);
+  slusym_assert_cmp(5, (double)((-a.r + a.i) * w), (double)c, 1.0, id); slusym_assert_cmp(5, (double)((-a.r - a.i) * w), (double)c, 1.0, id); }
 static void e_assert_same(elem_t a, elem_t b, const char *id) { slusym_assert_same((double)a.r, (double)b.r, id); slusym_assert_same((double)a.i, (double)b.i, id); }
 static int e_same(elem_t a, elem_t b) { return slusym_same((double)a.r, (double)b.r) && slusym_same((double)a.i, (double)b.i); }
 static int e_entails_zero(elem_t a) { return slusym_entails_zero((double)a.r) && slusym_entails_zero((double)a.i); }
@@ -81,6 +84,7 @@ static elem_t e_scale(elem_t a, real_t s) { return a * s; }
 static real_t e_abs1(elem_t a) { return (real_t)fabs((double)a); }
 static void e_assert_zero(elem_t a, double scale, const char *id) { slusym_assert_zero((double)a, scale, id); }
 static void e_assert_nonzero(elem_t a, const char *id) { slusym_assert_nonzero((double)a, id); }
+static void e_assert_abs1_le(elem_t a, real_t w, real_t c, const char *id) { slusym_assert_cmp(5, (double)(a * w), (double)c, 1.0, id); slusym_assert_cmp(5, (double)(-a * w), (double)c, 1.0, id); }
 static void e_assert_same(elem_t a, elem_t b, const char *id) { slusym_assert_same((double)a, (double)b, id); }
 static int e_same(elem_t a, elem_t b) { return slusym_same((double)a, (double)b); }
 static int e_entails_zero(elem_t a) { return slusym_entails_zero((double)a); }
@@ -92,10 +96,13 @@ static void dense_clear(dense_t *D, int m, int n) { D->m = m; D->n = n; for (int
 
 /* ------------------------------------------------------------------ symbolic CSC matrix from a pattern bitmask (bit j*m+i) */
 typedef struct { int m, n; int_t nnz; elem_t *val; int_t *rowind; int_t *colptr; dense_t D; } symmat_t;
-static unsigned long long h_patbit(unsigned long long pat, int m, int i, int j) { return (pat >> (j * m + i)) & 1ULL; }
+/* pattern = arbitrary-size bitmask given as a hex string ("0x1ff"): bit j*m+i set <=> entry (i,j) stored */
+typedef const char *h_pat_t;
+static int h_patbit(h_pat_t pat, int m, int i, int j) { const char *s = pat; if (s[0] == '0' && (s[1] == 'x' || s[1] == 'X')) s += 2; int len = (int)strlen(s); int bit = j * m + i; int d = bit / 4; if (d >= len) return 0;
+  char c = s[len - 1 - d]; int v = (c >= '0' && c <= '9') ? c - '0' : (c >= 'a' && c <= 'f') ? c - 'a' + 10 : (c >= 'A' && c <= 'F') ? c - 'A' + 10 : 0; return (v >> (bit % 4)) & 1; }
 /* symcols: bitmask of columns whose entries are symbolic; the other columns get fixed generic concrete values (distinct magnitudes, dominant diagonal) */
 static real_t h_concrete_value(int i, int j, int n) { static const int pr[] = {3, 5, 7, 11, 13, 17, 19, 23, 29, 31, 37, 41}; int k = (i * 5 + j * 3) % 12; real_t v = (real_t)pr[k] / (real_t)(16 + ((i + 2 * j) % 7)); if ((i + j) & 1) v = -v; if (i == j) v = (real_t)(4 * n + i + 1); return v; }
-static void symmat_build_cols(symmat_t *S, int m, int n, unsigned long long pat, const char *pfx, unsigned symcols) {
+static void symmat_build_cols(symmat_t *S, int m, int n, h_pat_t pat, const char *pfx, unsigned symcols) {
   S->m = m; S->n = n; S->val = (elem_t *)malloc(sizeof(elem_t) * (m * n + 1)); S->rowind = (int_t *)malloc(sizeof(int_t) * (m * n + 1)); S->colptr = (int_t *)malloc(sizeof(int_t) * (n + 1));
   dense_clear(&S->D, m, n); int_t k = 0; char nm[32];
   for (int j = 0; j < n; j++) { S->colptr[j] = k; for (int i = 0; i < m; i++) if (h_patbit(pat, m, i, j)) { snprintf(nm, sizeof nm, "%s%d_%d", pfx, i, j);
@@ -110,7 +117,7 @@ static void symmat_build_cols(symmat_t *S, int m, int n, unsigned long long pat,
         S->rowind[k] = i; S->D.a[i][j] = S->val[k]; S->D.nz[i][j] = 1; k++; } }
   S->colptr[n] = k; S->nnz = k;
 }
-static void symmat_build(symmat_t *S, int m, int n, unsigned long long pat, const char *pfx) { symmat_build_cols(S, m, n, pat, pfx, ~0u); }
+static void symmat_build(symmat_t *S, int m, int n, h_pat_t pat, const char *pfx) { symmat_build_cols(S, m, n, pat, pfx, ~0u); }
 static void symmat_free(symmat_t *S) { free(S->val); free(S->rowind); free(S->colptr); }
 /* assume strict column diagonal dominance: |a_jj| > sum_{i != j} |a_ij| (single pivot path; preserved by elimination) */
 static void symmat_assume_coldom(symmat_t *S) {
